@@ -179,7 +179,11 @@ func (n *DLQHandlerNode) Nack(msg *Message, nackMetadata NackMetadata) error {
 	writeTime := time.Now()
 	err = n.Handler.Write(msg.Ctx, dlqRecord)
 	if err != nil {
-		return err
+		// The DLQ write failed, we need to stop the pipeline for good (fatal
+		// error). Recovering could lead to an endless loop of restarts: the
+		// nacked record was not acked, so a restarted pipeline would read it
+		// again, nack it again and fail to write it to the DLQ again.
+		return cerrors.FatalError(cerrors.Errorf("failed to write record to the DLQ: %w", err))
 	}
 	n.Timer.Update(time.Since(writeTime))
 	n.Histogram.Observe(dlqRecord)
